@@ -140,6 +140,16 @@ func driveCursor(c *core.Ctx, r *core.Rand, k c14Kind, info map[string]any) {
 	}
 }
 
+// i14Pos is the position of an element in the universe.
+func i14Pos(s string) int {
+	for k, u := range c14Subset(255) {
+		if u == s {
+			return k
+		}
+	}
+	return 0
+}
+
 func c14Subset(mask int) []string {
 	var s []string
 	for i, e := range c14Universe {
@@ -173,9 +183,9 @@ func init() {
 		Exhaustive:  func(t core.Tier) bool { return t == core.Thorough },
 		Plan: func(tier core.Tier, seed int64) int {
 			if tier == core.Thorough {
-				return 256
+				return 256 * 16 // every subset 16 times: different child-data patterns and Next/Seek interleavings
 			}
-			return 48
+			return 96
 		},
 		Run: runC14,
 		Promises: func(core.Tier) map[string][]string {
@@ -193,7 +203,7 @@ func init() {
 
 func runC14(c *core.Ctx, idx int) {
 	r := c.Rand()
-	mask := idx
+	mask := idx % 256
 	if c.Tier != core.Thorough {
 		switch idx {
 		case 0:
@@ -254,8 +264,17 @@ func runC14(c *core.Ctx, idx int) {
 		if err := hst.Store.Create(ctx, &schema.Ent{Id: "hub-other", Typ: "hubs", V: map[string]any{"lst": []string{"zz"}, "keys": []string{}}}); err != nil {
 			return err
 		}
+		// which items carry the second role and child data: alternating, in runs of 2 and 4, none, all, random
+		oddMask := []int{0xAA, 0x55, 0x33, 0xCC, 0x0F, 0xF0, 0x00, 0xFF, 0x81, 0x7E}[(idx+idx/256)%10]
+		if idx%3 == 2 {
+			oddMask = r.Intn(256)
+		}
 		for i, s := range ne {
 			roles := []string{"r"}
+			i = 0
+			if oddMask&(1<<uint(i14Pos(s))) != 0 {
+				i = 1
+			}
 			if i%2 == 1 {
 				roles = append(roles, "odd")
 				odd = append(odd, s)
